@@ -120,11 +120,11 @@ func crashStage(meta *common.Meta, tier, base, rulesDir, bin, outDir string) int
 		}
 	}
 	common.WriteFile(filepath.Join(outDir, "cases_c19_crash.v"), `From GC Require Import Base Model_Recover.
-(* every observed status is the end of some schedule of the handler as written *)
+(* every observed status is the end of some schedule of the handler as written (all of them end with 2: C19_crash_exit_status) *)
 Definition zopt_eqb (a : option Z) (b : Z) : bool := match a with Some x => Z.eqb x b | None => false end.
 Definition case_ok (k : bool * Z * Z) : bool :=
   let '(found, code, st) := k in
-  existsb (fun sch => zopt_eqb (run_schedule worker_step found code sch rstart) st) [[true; true; true]; [true; false; false]].
+  existsb (fun sch => zopt_eqb (run_schedule worker_step found code sch rstart) st) [[true; true]; [false; true; false; true]].
 Definition cases : list (bool * Z * Z) := [
 `+strings.Join(lines, ";\n")+"\n].\nDefinition M := Eval vm_compute in mismatches case_ok cases.\nPrint M.\n")
 	common.WriteFile(filepath.Join(outDir, "cases_c19_crash.index.txt"), strings.Join(idx, "\n")+"\n")
